@@ -171,7 +171,9 @@ def copy(mesh : Mesh, copy_attributes=False, copy_connectivity=False) -> Mesh:
             copy_mesh.cell_faces._adj = deepcopy(mesh.cell_faces._adj)
         # _cont of face_corners and cell_corners are always empty
     if copy_connectivity and hasattr(mesh, "connectivity"):
-        copy_mesh.connectivity = mesh.connectivity
+        # the copy gets its own connectivity handler: deep copy of the caches, with the handler's back-reference
+        # to the source mesh replaced by the copy (the memo maps the source mesh to copy_mesh)
+        copy_mesh.connectivity = deepcopy(mesh.connectivity, {id(mesh): copy_mesh})
     return copy_mesh
 
 def merge(mesh_list : list) -> Mesh:
